@@ -169,5 +169,19 @@ CHECKS["C12"] = {
     "note": "Property(observe=...) only; depth 3/4; intermediate steps deliberately do not read, so caches filled "
             "by explicit read events can go stale if invalidation is missed",
 }
+CHECKS["C16"] = {
+    "category": "model_checking",
+    "technique": MC + " (history BFS on tree-shaped graphs with dedup; reachability interpreter + differential agreement legacy vs observe)",
+    "text": "Seven (legacy extended name, observe expression) pairs ('.'/':' links, two-level chains, list and dict "
+            "container links, nested) registered through both APIs on the same root; every history up to depth 4 (5 "
+            "thorough) over tree-preserving mutations of the first three objects (fresh object at every insertion: "
+            "child reassignment, list append/insert/pop/del/slice/whole-value, dict set/del) and removal of the "
+            "registration; after every history the final attribute of every object ever created is written: the "
+            "legacy handler must be called exactly once iff the object is currently reachable along the name "
+            "(interpreter) and the observe handler must agree; link reassignments must be reported for '.' links "
+            "and never for ':' links; after removal nothing is called.",
+    "note": "tree-shaped graphs only (statement); 4-argument handler; in-place container mutation along a '.' link "
+            "is not constrained for the legacy handler; depth 4/5",
+}
 
 NOT_CLAIMED = {}
